@@ -6,6 +6,7 @@ import (
 	"encoding/binary"
 	"fmt"
 	"sort"
+	"sync"
 	"time"
 )
 
@@ -102,6 +103,9 @@ type Store struct {
 	NowFn func() uint32
 	// Opened / Closed connection counters (C15).
 	Opened, Closed int
+	// Locked makes Handle and the counters take Mu (free-running race passes only).
+	Locked bool
+	Mu     sync.Mutex
 }
 
 // NewStore makes an empty store.
@@ -271,6 +275,10 @@ func ErrReply(op byte, status uint16, opaque uint32) []byte {
 
 // Handle executes one request and returns the reply bytes (empty for silent quiet misses).
 func (s *Store) Handle(conn string, f *Frame) []byte {
+	if s.Locked {
+		s.Mu.Lock()
+		defer s.Mu.Unlock()
+	}
 	st, rep := s.handle(f)
 	if s.LogOn {
 		s.Log = append(s.Log, ReqLog{Conn: conn, Op: f.Op, Key: string(f.Key), ValLen: len(f.Val), Flags: f.Flags, Exptime: f.Exptime, Status: st})
